@@ -904,3 +904,44 @@ contract(G + "GraphBasedModelConstructor.construct_fl_isoforms#path_guard", {"se
          # them - the precondition under which get_exons returns the exons between the introns (its contract) and no intron is fused
          ensures=["result == (len(path) > 2 and all(path[i + 1][1] + 1 < path[i + 2][0] for i in range(len(path) - 3)))"],
          canary="not result")
+
+
+# ---- which strandness level a run without --report_canonical gets -------------------------------------------------------------------------------------
+@finite("C04.default_strand_level", ["C04", "C18"], note="the default of --report_canonical, read from the add_argument call in isoquant.py, through the real "
+        "set_model_construction_options for all eight model construction strategies: a run that does not ask for it never reports models of "
+        "undetermined strand (the resolved level is only_canonical or only_stranded); an explicit level is taken as given")
+def c04_default_strand_level(tier, rng):
+    from argparse import Namespace
+    from contracts import pipeline_harness as H
+    m = H.isoquant_main()
+    tree = ast.parse(open(front.REPO + "/isoquant.py").read())
+    calls = [n for n in ast.walk(tree) if isinstance(n, ast.Call) and any(isinstance(a, ast.Constant) and a.value == "--report_canonical" for a in n.args)]
+    if len(calls) != 1:
+        raise front.Missing("the --report_canonical option is not declared exactly once in isoquant.py")
+    dflt = [k.value for k in calls[0].keywords if k.arg == "default"]
+    if not dflt:
+        raise front.Missing("--report_canonical has no default")
+    default = eval(compile(ast.Expression(dflt[0]), "<default>", "eval"), vars(m))
+    level = m.StrandnessReportingLevel
+    strategies = ["reliable", "default_pacbio", "sensitive_pacbio", "default_ont", "sensitive_ont", "fl_pacbio", "all", "assembly"]
+    obl = dis = 0
+    viol = []
+    for s_ in strategies:
+        for explicit in (None, "only_canonical", "only_stranded"):
+            obl += 1
+            args = Namespace(report_canonical=explicit or default, model_construction_strategy=s_, graph_clustering_distance=None,
+                             report_novel_unspliced=None, no_model_construction=True, polya_requirement="auto")
+            try:
+                m.set_model_construction_options(args)
+                got = args.report_canonical_strategy
+            except Exception as e:
+                got = "%s: %s" % (type(e).__name__, e)
+            ok = got == level[explicit] if explicit else got in (level.only_canonical, level.only_stranded)
+            if ok:
+                dis += 1
+            else:
+                viol.append({"obligation": "C04.default_strand_level.%s.%s" % (s_, explicit or "default"),
+                             "inputs": {"model_construction_strategy": s_, "report_canonical": explicit or "(default) %s" % default},
+                             "observed": str(got), "required": explicit or "only_canonical or only_stranded"})
+    return {"obligations": obl, "discharged": dis, "violations": viol[:4], "cases": obl, "exhaustive": True,
+            "bound": "8 strategies x {default, only_canonical, only_stranded}", "samples": [{"model_construction_strategy": "all", "default": str(default)}]}
